@@ -84,6 +84,9 @@ SEQ_LEN = {
     "aws_array_list_copy": ("to", lambda st, o, p: o("from", "length")),
     "aws_array_list_shrink_to_fit": ("list", lambda st, o, p: o("list", "length")),
     "aws_array_list_ensure_capacity": ("list", lambda st, o, p: o("list", "length")),
+    "aws_array_list_init_static_from_initialized": ("list", lambda st, o, p: p("item_count")),
+    "aws_array_list_init_static": ("list", lambda st, o, p: Poly.const(0)),
+    "aws_array_list_init_dynamic": ("list", lambda st, o, p: Poly.const(0)),
     "aws_array_list_get_at": ("list", lambda st, o, p: o("list", "length")),
     "aws_array_list_get_at_ptr": ("list", lambda st, o, p: o("list", "length")),
     "aws_array_list_front": ("list", lambda st, o, p: o("list", "length")),
@@ -114,8 +117,11 @@ def analyse(ctx, replace=None, only=None):
         num = Num(f, P, h)
         sites = access_sites(f)
         rets = [e for b in f.blocks.values() for e in b.elems if e["k"] == "ret"]
+        void_exit = not rets and f.name in SEQ_LEN
+        if void_exit:
+            rets = [{"id": -1, "k": "ret", "a": [], "loc": [f.line]}]  # a void function falls off its end: its exit states
         try:
-            states = num.states_at({s[0] for s in sites} | {r["id"] for r in rets} | ({-1} if f.name == "aws_array_list_mem_swap" else set()))
+            states = num.states_at({s[0] for s in sites} | {r["id"] for r in rets} | ({-1} if f.name == "aws_array_list_mem_swap" or void_exit else set()))
         except Limit as ex:
             R.broken("NUM trace limit in %s: %s" % (f.name, ex))
             continue
@@ -249,6 +255,14 @@ def analyse(ctx, replace=None, only=None):
                     else:
                         R.check(entails(st, Ln - ix), "INDEX", "%s:failure-only-past-the-end" % f.name, loc, "failure implies index >= length",
                                 "a failure return is reached although index = %r may be below length = %r (trail %s)" % (ix, Ln, st.trail[-5:]))
+                # copy refuses a destination only when it really is too small (and cannot grow)
+                if f.name == "aws_array_list_copy" and fk == "fail":
+                    rv_ = RU.uncast(f, r["a"][0]) if r.get("a") else None
+                    if rv_ is not None and rv_["k"] == "call" and rv_.get("callee") == "aws_raise_error" and f.is_const(RU.arg(f, rv_, 0)) == P.enums.get("AWS_ERROR_DEST_COPY_TOO_SMALL"):
+                        csz, fl, fi = cur(num, st, "to", "current_size"), cur(num, st, "from", "length"), cur(num, st, "from", "item_size")
+                        okc = csz is not None and fl is not None and fi is not None and entails(st, csz + 1 - fl * fi)
+                        R.check(okc, "POST", "copy:refused-only-when-too-small", loc, "DEST_COPY_TOO_SMALL implies current_size < length * item_size of the source",
+                                "aws_array_list_copy refuses with DEST_COPY_TOO_SMALL although the destination (current_size %r) may hold the source's %r * %r bytes exactly: an exact-fit static destination is refused" % (csz, fl, fi))
                 # POST: summaries used elsewhere are re-derived from the callee's own body
                 if f.name == "aws_array_list_ensure_capacity" and fk == "ok":
                     idx = st.env.get("v:index")
@@ -396,6 +410,8 @@ def copy_rule(R, P):
 
 
 MUTANTS = [
+    {"name": "copy-refuses-an-exact-fit", "file": AL, "expect": "POST", "old": "    if (to->current_size >= copy_size) {\n        if (copy_size > 0) {", "new": "    if (copy_size < to->current_size) {\n        if (copy_size > 0) {"},
+    {"name": "from-initialized-starts-with-the-byte-count", "file": "include/aws/common/array_list.inl", "expect": "SEQ-LEN", "old": "    list->length = item_count;", "new": "    list->length = list->current_size;"},
     {"name": "get-at-ptr-accepts-index-equal-length", "file": "include/aws/common/array_list.inl", "expect": "INDEX",
      "old": "    AWS_PRECONDITION(val != NULL);\n    if (aws_array_list_length(list) > index) {\n        *val = (void *)", "new": "    AWS_PRECONDITION(val != NULL);\n    if (aws_array_list_length(list) >= index) {\n        *val = (void *)"},
     {"name": "sort-pointer-stride", "file": AL, "expect": "RANGE", "old": "qsort(list->data, aws_array_list_length(list), list->item_size, compare_fn);", "new": "qsort(list->data, aws_array_list_length(list), sizeof(void *), compare_fn);"},
